@@ -254,6 +254,28 @@ def fail_with_output_path(viol):
                                          "dirs": [x for x in dirs_after if x not in dirs_before]}})
             finally:
                 shutil.rmtree(d, ignore_errors=True)
+    # without -i / --auto the input file is never touched, whatever other switches are given
+    import itertools
+    from flowmark.cli import main as _main
+    switches = ["--nobackup", "-s", "-c", "--smartquotes", "--ellipses", "-p"]
+    for r in (0, 1, 2):
+        for combo in itertools.combinations(switches, r):
+            d = scratch_dir("vf-c14-")
+            try:
+                f = os.path.join(d, "doc.md")
+                open(f, "w").write(OPTION_DOC)
+                before = snapshot(d)
+                with in_dir(d), captured():
+                    try:
+                        rc = _main(list(combo) + ["doc.md"])
+                    except BaseException as e:
+                        rc = "exc:" + type(e).__name__
+                n += 1
+                if snapshot(d) != before:
+                    viol.append({"clause": "input_untouched_without_inplace", "input": {"argv": list(combo) + ["doc.md"]},
+                                 "got": sorted(set(snapshot(d)) ^ set(before)) or "doc.md rewritten", "rc": str(rc)})
+            finally:
+                shutil.rmtree(d, ignore_errors=True)
     # format, edit, format again in place: after the second run the text it replaced is still recoverable
     d = scratch_dir("vf-c14-")
     try:
@@ -333,7 +355,7 @@ def bounded(tier, seed):
     return {"evaluations": evals, "distinct_nontrivial": len(distinct), "violations": violations, "samples": samples,
             "rule": "(also: undecodable input / raising formatter in a 3-file run leave the failing and later files untouched; a failing run "
                     "with an explicit output path creates no file or directory and touches no existing output; the backup of a second "
-                    "in-place run holds the text it replaced) "
+                    "in-place run holds the text it replaced; a run without -i / --auto never modifies its input, for every 0-2 subset of the other switches) "
                     "for each scenario {inplace+backup, inplace, two files, --auto} and each k in 1..#fs-calls: raise OSError "
                     "at the k-th file-system call (fault) or os._exit the forked process there (crash); then every target must "
                     "hold the complete old or new text (or be recoverable from .orig). distinct = distinct (scenario, mode, "
